@@ -1014,6 +1014,24 @@ def run_segment(plan, ctx, detail=False, table=None):
                             b1 = None
                             rec["b1_err"] = type(e).__name__
                         probe("B1_" + str(b1))
+                        # B5: the classical function the bound object carries (QlassF.f() / original_f) is the
+                        # specialised Python function too (not available under a notebook kernel, by design;
+                        # callees given as defs= are not in its namespace)
+                        if violation is None and pyf is not None and b1 is not None and not ua["defs"] and not cfg.get("ipykernel") and "fault" not in a:
+                            b5 = None
+                            try:
+                                cf = res.f()
+                                for ins, _got in dec:
+                                    kw = dict(ins)
+                                    kw.update(pv)
+                                    if crop(cf(**ins), ua["ret"]) != crop(pyf(**kw), ua["ret"]):
+                                        b5 = "value at " + canon(ins)
+                                        break
+                            except Exception as e:
+                                b5 = "raised " + type(e).__name__
+                            probe("B5_" + ("ok" if b5 is None else "differs"))
+                            if b5 is not None:
+                                violation = viol("B5", op, ["the classical function of the bound object (f()) is not the Python function with the parameters set: " + b5.split(" at ")[0]], at=b5, values=a["values"], order=a["order"])
 
                     def typed_form_agrees():
                         """the same program with the parameters kept as ordinary arguments of their declared
